@@ -22,6 +22,7 @@ RULE = ("a coordinate set (2D/3D, 1..24 points: jittered grids, uniform points, 
         "qubit (on a trap, 4e-7 beside one, 3e-6 beside one, far away) the weight of the trap at its position. "
         "non-trivial = distinct (case, 'perm') whose set has points tying in the rounded leading coordinate with different "
         "raw values, points within 1e-5 of each other, or a signed/rounded zero")
+RULE += " Later additions: every weight map is asked a second time about the same names at rotated positions."
 ASSUMPTIONS = ["sets whose 1e-6-rounded points collide (or may collide under either resolution of a decimal half-way case) are "
                "outside the domain: only counted",
                "a trap is 'at the position' of a qubit when its rounded coordinates are within 1e-6 (Euclidean, -0.1%) of it and "
